@@ -178,6 +178,18 @@ def run(rep, tier, rng):
                 ocases.append("100000 | %s 7 8 9 | | | | begin %s end" % (" ".join(map(str, w2 + w)), nm))
                 owant.append(([int(w2 == w)] + w2 + w + [7, 8, 9]) if nm == "eqw" else ([7, 8, 9] if w2 == w else None))
                 onames.append(nm)
+    # multi-value push (decimal and hexadecimal lists): every width boundary as the largest and as a smaller element
+    PB = [0, 1, 255, 256, 65535, 65536, 65537, 2**32 - 1, 2**32, 2**32 + 1, P - 1]
+    plists = [[a, b] for a in PB for b in PB] + [[ro.choice(PB) for _ in range(ro.choice([3, 4, 5, 8, 16]))] for _ in range(per * 4)]
+    for vals in plists:
+        for form in ("dec", "hex"):
+            if form == "hex" and len(vals) > 16:
+                continue
+            hx = lambda v: (lambda h: "0x" + ("0" + h if len(h) % 2 else h))("%x" % v)
+            toks = [str(v) if form == "dec" else hx(v) for v in vals]
+            ocases.append("1000 | 7 8 9 | | | | begin push.%s end" % ".".join(toks))
+            owant.append((list(reversed(vals)) + [7, 8, 9])[:16])
+            onames.append("push-list-" + form)
     # assertions with an error code: the code of the failing assertion is the one reported
     ecases = []
     for code in (None, 0, 1, 77, 2**31, 2**32 - 1):
@@ -205,6 +217,8 @@ def run(rep, tier, rng):
         if x.startswith("OK"):
             mm = re.search(r"stack=([\d,]+)", x)
             got = [int(v) for v in mm.group(1).split(",")][:len(w)] if (mm and w is not None) else "completed"
+        if nm == "push-list-hex" and x.startswith("ASMERR"):
+            continue        # not every hexadecimal spelling is an accepted form; the accepted ones must push the values
         if x.startswith("PANIC") or (w is None and x.startswith("OK")) or (w is not None and got != w):
             rep.violation("instruction %s: the instruction reference gives %s, the implementation %s" % (nm, w, x[:120]),
                           {"kind": "search", "family": "masm", "case": c, "impl": x[:400], "want": w, "instr": nm})
